@@ -161,13 +161,14 @@ def _gen_post(r, nvars, pool, planted):
 
 
 def gen_case(r, index, tier):
-    nclients = r.weighted([(1, 2), (2, 4), (3, 4)])
-    nvars = r.randint(2, 6)
+    deep = tier == "thorough"
+    nclients = r.weighted([(1, 2), (2, 4), (3, 4)] + ([(4, 2)] if deep else []))
+    nvars = r.randint(2, 8 if deep else 6)
     pool = []
     scripts = []
     for c in range(nclients):
         planted = tuple(r.below(2) for _ in range(nvars)) if r.chance(0.8) else None
-        n = r.randint(1, 10)
+        n = r.randint(1, 16 if deep else 10)
         ops = [_gen_post(r, nvars, pool, planted) for _ in range(n)]
         if r.chance(0.7):
             ops.append({"op": "solve"})
